@@ -178,10 +178,6 @@ def impl_eligible(scn):
         return False
     if any((t or {}).get('rtype') for t in scn.get('events', {}).values()):
         return False
-    if any((t or {}).get('timeout') is not None for t in scn.get('events', {}).values()) and any(b.get('parallel') for b in scn['buses']):
-        return False   # timeouts on parallel buses are not modelled yet
-    if any(b.get('parallel') for b in scn['buses']) and any(op[0] in ('stop', 'crl') for ops in scn['drivers'] for op in ops):
-        return False   # cancelling a run loop that awaits parallel execute_handler tasks is not modelled yet
     for sc in scn['scripts'].values():
         for ops in sc.values():
             for op in ops:
@@ -283,7 +279,9 @@ def validate_impl(traces, jobs=8, batch=60, keep_dir=None, timeout=1800):
         for item, (out, rc, wall) in zip(files, ex.map(one, files)):
             m = _IMPL_ACC.search(out)
             if rc != 0 or not m:
-                raise TLCError('TraceImpl failed on %s (rc=%s)\n%s' % (item[0], rc, '\n'.join(out.splitlines()[-40:])))
+                ls = [x for x in out.splitlines() if not re.match(r'^\d+\. Line', x)]
+                k = next((j for j, x in enumerate(ls) if x.startswith('Error:') or 'Exception' in x), max(0, len(ls) - 60))
+                raise TLCError('TraceImpl failed on %s (rc=%s)\n%s' % (item[0], rc, '\n'.join(ls[k:k + 25] + ['...'] + ls[-12:])))
             states += stats(out)[1]
             rej = {}
             for r in _IMPL_REJ.finditer(out):
